@@ -1,5 +1,7 @@
 import DK.Props.Defs
 import DK.Lemmas.Sum
+import DK.Lemmas.Soc
+import DK.Lemmas.Calc
 import Mathlib.Analysis.Convex.SpecificFunctions.Basic
 import Mathlib.Tactic.Ring
 import Mathlib.Tactic.Linarith
@@ -197,7 +199,6 @@ theorem chordR_hlqCost (pl ph xl xh : ℝ) (hp : pl ≤ ph) (hx : xl ≤ xh) :
       mul_nonneg (mul_nonneg (mul_nonneg hD.le ha) (mul_nonneg h0 h1')) (mul_self_nonneg _)
     linarith
 
-
 /-- `ABCCost._cost` with a real exponent `b ≥ 1`, `a ≥ 0`, `c ≥ 0` is convex on `[x_l, x_h]`. -/
 theorem chordIcc_abcCost_rpow (a b c xl xh : ℝ) (ha : 0 ≤ a) (hb : 1 ≤ b) (hc : 0 ≤ c) (hx : xl ≤ xh) :
     ChordIcc xl xh (fun t => abcCost Real.rpow t a b c xl xh) := by
@@ -226,11 +227,6 @@ theorem chordIcc_abcCost_rpow (a b c xl xh : ℝ) (ha : 0 ≤ a) (hb : 1 ≤ b) 
     have := mul_le_mul_of_nonneg_left hcv hc
     linarith
 
-theorem ipow_two (x : ℝ) : ipow x 2 = x * x := by
-  unfold ipow
-  simp
-  ring
-
 /-- the thermal slot cost `c·((t_opt − t)/t_range)²` is convex in the temperature. -/
 theorem chordR_tSlotCost (q : TParams ℝ) (i : ℕ) (hc : 0 ≤ q.c i) : ChordR (fun t => tSlotCost q t i) := by
   by_cases hxe : q.tOptimal - q.tRange = q.tOptimal
@@ -246,9 +242,6 @@ theorem chordR_tSlotCost (q : TParams ℝ) (i : ℕ) (hc : 0 ≤ q.c i) : ChordR
     exact chordR_sq_affine _ _ _ hc
 
 /-! ## storage: efficiency factor, state of charge, shortfall -/
-
-theorem effPow_one (r : ℝ) : effPow 1 r = 1 := by
-  unfold effPow; split_ifs <;> simp
 
 theorem effg_le_mul (e r : ℝ) (he0 : 0 < e) (he1 : e ≤ 1) : r * effPow e r ≤ e * r := by
   unfold effPow
